@@ -169,7 +169,7 @@ def run(ctx):
 
 def run_(ctx):
     rng = gen.rng_for(ctx.seed, 'c06')
-    for k in range(50 if ctx.quick else 900):
+    for k in range(ctx.n(50, 900)):
         one(ctx, rng, k)
 
 
